@@ -17,6 +17,12 @@ def volumes(tier):
         ("2TiB-512", 512, 4294967295, None),                # the format's limit with 512-byte sectors
         ("16GiB-4Ksec", 4096, 4194304, 4096),
     ]
+    # volumes whose FAT has no spare entry behind the last cluster (entries = clusters + 2): a scan that reads past the last
+    # entry leaves the table; found with the library's own format through the boot-sector hook
+    for (lab, bps, bpc, start) in (("exactfit-5.7GiB", 512, 4096, 12000000), ("exactfit-16GiB-4Ksec", 4096, 4096, 4194304)):
+        ts = vlib.exact_fit_sectors(bps, bpc, start, 32)
+        if ts is not None:
+            v.append((lab, bps, ts, bpc))
     if tier == "thorough":
         v += [("fat32-cluster-limit-4K", 4096, 268435445 + 140000, 4096),   # close to 0x0FFFFFF4 clusters of one 4 KiB sector
               ("8TiB-4Ksec", 4096, 2147483648, 32768),
@@ -28,7 +34,7 @@ def run(rep, tier, seed):
     scripts = []; metas = []
     for (label, bps, ts, bpc) in volumes(tier):
         vol_bytes = bps * ts
-        for delta in (["0", "-1", "1", "-2", "none", "2"] if tier == "thorough" or label in ("2TiB-512", "4GiB+") else ["0", "-1", "1"]):
+        for delta in (["0", "-1", "1", "-2", "none", "2"] if tier == "thorough" or label in ("2TiB-512", "4GiB+") or label.startswith("exactfit") else ["0", "-1", "1"]):
             n1 = rng.range(2, 4)
             s = ["dev %d 0" % (vol_bytes + 65536), "wlog 0",
                  "format %d %d %s - - - - - -" % (bps, ts, bpc if bpc else "-"), "pokehint %s" % delta, "pages", "wlog 1", "logcalls 1",
